@@ -52,3 +52,6 @@ type Shared struct{ v atomic.Int64 }
 
 func (s *Shared) Add(d int) { s.v.Add(int64(d)) }
 func (s *Shared) Load() int { return int(s.v.Load()) }
+
+// WatchClosed is a no-op on the real runtime (closure is not observable without receiving).
+func WatchClosed(name string, ch any) {}
